@@ -139,6 +139,27 @@ def run_bodywrite(ctx, ncases):
             kind = "off-lattice"
         lines.append("bodywrite %d %s %s" % (ub, ",".join("%x" % u for u in us) if us else "-", " ".join(ptok(p) for p in ps)))
         cases.append((ub, ps, us, kind))
+    # the boundaries of the "extra most significant bit" rule with many numbers at the ends of the range: a range of
+    # exactly 2^k, 2^k + 1 or 2^k - 1 offsets (k_range = 2^k - 1, 2^k, 2^k - 2), alone or next to a second range, 64+
+    # numbers mostly at the two extremes (k + 1 bits each). The worst-case bit bounds that gate the unchecked fast path
+    # (max_bits_read / max_bits_overshot) are tight on exactly these, and the numdec sessions below truncate them.
+    for _ in range(max(12, ncases // 8)):
+        ub = rng.choice(UBS)
+        k = rng.choice([1, 2, 3, 5, 8, 13, ub - 2, ub - 1])
+        kr = (1 << k) + rng.choice([-2, -1, 0, 0, 0, 1])
+        g = rng.choice([1, 1, 3]) if (kr * 3 + 8) < (1 << ub) else 1
+        lo = rng.below((1 << ub) - kr * g - 4) if rng.chance(1, 2) else 0
+        ps = [[rng.range(1, 400), lo, lo + kr * g, "", None, g]]
+        if rng.chance(1, 3) and lo + kr * g + 3 < (1 << ub):
+            ps = [[ps[0][0], lo, lo + kr * g, "0", None, g], [5, lo + kr * g + 2, lo + kr * g + 2, "1", None, 1]]
+        n = rng.choice([40, 64, 100, 300])
+        us = []
+        for _i in range(n):
+            p = ps[0] if rng.chance(9, 10) else ps[-1]
+            r = (p[2] - p[1]) // p[5]
+            us.append(p[1] + p[5] * rng.choice([0, r, 0, r, rng.below(r + 1)]))
+        lines.append("bodywrite %d %s %s" % (ub, ",".join("%x" % u for u in us), " ".join(ptok(p) for p in ps)))
+        cases.append((ub, ps, us, "msb-edge"))
     imp = C.harness(lines, timeout=600)
     mod = C.driver(lines, timeout=600)
     good = []
@@ -180,9 +201,10 @@ def run_numdec(ctx, good, nrandom, rounds=5):
         if not us:
             continue
         hx = bits_to_hex(bits)
-        for _ in range(2):
+        edge = len(us) >= 40 and len(ps) <= 2 and all(p[4] is None for p in ps)
+        for _ in range(5 if edge else 2):
             data, kind = hx, "valid"
-            if rng.chance(1, 3) and len(hx) > 2:
+            if rng.chance(2 if edge else 1, 3) and len(hx) > 2:
                 data, kind = hx[:2 * rng.below(len(hx) // 2)], "truncated"
             elif rng.chance(1, 6):
                 data, kind = hx + "".join("%02x" % rng.below(256) for _ in range(rng.range(1, 12))), "trailing"
